@@ -45,6 +45,11 @@ type options struct {
 	varexp       bool
 	noParse      bool
 
+	// loadPath: the place, within the input being normalized, of the value
+	// worked on (names and indices). The values do not know their place yet
+	// at that time; errors raised for them report this path.
+	loadPath []string
+
 	maxIdx        int64 // Max index field value allowed
 	enableNumKeys bool  // Enables numeric keys, example "123"
 
